@@ -201,6 +201,7 @@ theorem create_wf {s : State} (h : WF s) (n : Name) (size : Nat) : WF (create s 
     split
     · exact storeEntry_wf h n hnm'
     · refine evict_wf ?_
+      unfold createInsert
       have h1 := wf_put h n { size := size, mtime := s.now, lat := some (truncSec s.now) } rfl
       exact wf_cons (s := { s with files := KV.put s.files n { size := size, mtime := s.now, lat := some (truncSec s.now) } })
         h1 n s.now hnm' (mem_keys_put.mpr (Or.inl rfl))
@@ -381,7 +382,7 @@ theorem create_cap (s : State) (n : Name) (size : Nat) : (create s n size).1.cap
   · exact access_cap s n
   · split
     · exact storeEntry_cap s n
-    · rw [evict_cap]
+    · rw [evict_cap]; rfl
 
 theorem foldl_cap {α : Type} (f : State × α → Name → State × α) (hf : ∀ acc m, (f acc m).1.cap = acc.1.cap) (l : List Name) :
     ∀ acc, (l.foldl f acc).1.cap = acc.1.cap := by
